@@ -38,6 +38,17 @@ def named_functions():
             out.add(("src/isla/solver.py", "ISLaSolver." + q))
         for q in re.findall(r'meths\["([^"]+)"\]', txt):
             out.add(("src/isla/solver.py", "ISLaSolver." + q))
+    # every function whose (qualified or bare) name occurs in a string literal of a rule module
+    ref = json.load(open(os.path.join(VERIF, "sa", "reference.json")))
+    words = set()
+    for f in glob.glob(os.path.join(VERIF, "sa", "rules", "c*.py")) + glob.glob(os.path.join(VERIF, "sa", "*.py")):
+        for lit in re.findall(r'"([^"\n]{3,80})"', open(f).read()):
+            words |= set(re.findall(r"[A-Za-z_][A-Za-z_0-9]*(?:\.[A-Za-z_][A-Za-z_0-9]*)*", lit))
+    for rel, fns in ref.items():
+        for q in fns:
+            base = q.split("#")[0]
+            if base in words or (base.split(".")[-1] in words and len(base.split(".")[-1]) > 6 and not base.split(".")[-1].startswith("__")):
+                out.add((rel, base))
     return sorted(out)
 
 
